@@ -460,30 +460,32 @@ Lemma RB_bsame_io : forall s s', bsame s s' -> bc_io s' = bc_io s.
 Proof. intros s s' (_ & H & _). exact H. Qed.
 
 Lemma sym_bc_step_sound : forall A st sb i st' evs, RB A st sb -> sym_bc_step w st i = Some (st', evs) ->
-  code_at code (bc_pc sb) = Some i -> forall f,
+  code_at code (bc_pc sb) = Some i ->
   match io_run (map (cev A) evs) (bc_io sb) with
-  | (io', true) => exists sb', bexec (S f) sb = bexec f sb' /\ bc_io sb' = io' /\ RB A st' sb'
+  | (io', true) => exists sb', (forall f, bexec (S f) sb = bexec f sb') /\ bc_io sb' = io' /\ RB A st' sb'
                                /\ bc_pc sb' = bc_pc sb + 1
                                /\ s_ci st' = s_ci st /\ s_d st' = s_d st /\ s_nz st' = s_nz st
-  | (io', false) => exists sb', bexec (S f) sb = Stopped sb' /\ bc_io sb' = io'
+  | (io', false) => exists sb', (forall f, bexec (S f) sb = Stopped sb') /\ bc_io sb' = io'
   end.
 Proof.
-  intros A st sb i st' evs R H CA f. destruct (bexec_at f sb i CA) as (_ & NL & FE).
+  intros A st sb i st' evs R H CA. destruct (bexec_at 0 sb i CA) as (_ & NL & FE).
   pose proof R as (P & IP & N & C & T).
   assert (BIN : forall op fs d a b s1, (forall p q, op (ev A p) (ev A q) = ev A (fs p q)) ->
             sym_binop w fs st d a b = Some s1 ->
-            exists sb', bc_io sb' = bc_io sb /\ RB A s1 sb' /\ bc_pc sb' = bc_pc sb + 1
-                        /\ s_ci s1 = s_ci st /\ s_d s1 = s_d st /\ s_nz s1 = s_nz st
-                        /\ sb' = next (bc_binop w op sb d a b)).
+            bc_io (next (bc_binop w op sb d a b)) = bc_io sb /\ RB A s1 (next (bc_binop w op sb d a b))
+            /\ bc_pc (next (bc_binop w op sb d a b)) = bc_pc sb + 1
+            /\ s_ci s1 = s_ci st /\ s_d s1 = s_d st /\ s_nz s1 = s_nz st).
   { intros op fs d a b s1 OP SB. destruct (sym_binop_sound A op fs st sb d a b s1 OP R SB) as (R1 & (B1 & B2 & B3) & F1 & F2 & F3 & F4).
-    exists (next (bc_binop w op sb d a b)). split; [exact B2|]. split; [exact R1|]. split; [cbn; rewrite B3; reflexivity|].
-    split; [exact F1|]. split; [exact F2|]. split; [exact F3|reflexivity]. }
+    split; [exact B2|]. split; [exact R1|]. split; [cbn; rewrite B3; reflexivity|].
+    split; [exact F1|]. split; [exact F2|exact F3]. }
   destruct i as [|c sh|sh|dst|src|c off|c off|d a b|d a b|d a b|d a]; cbn [sym_bc_step] in H; try discriminate.
-  - injection H as <- <-. cbn [map io_run]. exists (next sb). cbn [bc_exec]. rewrite NL, FE.
-    split; [reflexivity|]. split; [reflexivity|]. split; [exact R|]. split; [reflexivity|]. split; [reflexivity|split; reflexivity].
-  - injection H as <- <-. cbn [map cev io_run bc_exec]. rewrite NL, FE.
+  - injection H as <- <-. cbn [map io_run]. exists (next sb).
+    split; [intros f; cbn [bc_exec]; rewrite NL, FE; reflexivity|].
+    split; [reflexivity|]. split; [exact R|]. split; [reflexivity|]. split; [reflexivity|split; reflexivity].
+  - injection H as <- <-. cbn [map cev io_run].
     destruct (do_input e (bc_io sb)) as [b io'|io'] eqn:I.
-    + exists (next (bc_set_mem (bc_set_io sb io') dst (from_u8 w b))). split; [reflexivity|]. split; [reflexivity|].
+    + exists (next (bc_set_mem (bc_set_io sb io') dst (from_u8 w b))).
+      split; [intros f; cbn [bc_exec]; rewrite NL, FE, I; reflexivity|]. split; [reflexivity|].
       destruct (input_value _ _ _ I) as (_ & IP' & _).
       split.
       * assert (R0 : RB A (set_n st (s_n st + 1)) (bc_set_io sb io')).
@@ -491,45 +493,49 @@ Proof.
         apply (RB_set_mem A (set_n st (s_n st + 1)) (bc_set_io sb io') dst (e_var (ainp (s_n st))) (from_u8 w b) R0).
         apply (from_u8_ainp A (s_n st) _ _ _ N IP I).
       * split; [reflexivity|]. split; [reflexivity|split; reflexivity].
-    + exists (bc_set_io sb io'). split; reflexivity.
-  - injection H as <- <-. cbn [map cev io_run bc_exec]. rewrite NL, FE.
-    unfold bc_mem. rewrite P, C.
+    + exists (bc_set_io sb io'). split; [intros f; cbn [bc_exec]; rewrite NL, FE, I; reflexivity|reflexivity].
+  - injection H as <- <-. cbn [map cev io_run].
+    assert (MV : bc_mem sb src = ev A (cell_b st src)) by (unfold bc_mem; rewrite P; apply C).
     destruct (do_output e (bc_io sb) (into_u8 w (ev A (cell_b st src)))) as [u io'|io'] eqn:O.
-    + exists (next (bc_set_io sb io')). split; [reflexivity|]. split; [reflexivity|].
+    + exists (next (bc_set_io sb io')). split; [intros f; cbn [bc_exec]; rewrite NL, FE, MV, O; reflexivity|]. split; [reflexivity|].
       split; [split; [exact P|]; split; [cbn; rewrite (output_pos _ _ _ _ O); exact IP|]; split; [exact N|]; split; [exact C|exact T]|].
       split; [reflexivity|]. split; [reflexivity|split; reflexivity].
-    + exists (bc_set_io sb io'). split; reflexivity.
+    + exists (bc_set_io sb io'). split; [intros f; cbn [bc_exec]; rewrite NL, FE, MV, O; reflexivity|reflexivity].
   - destruct (sym_binop w (e_add w) st d a b) as [s1|] eqn:SB; [|discriminate]. injection H as <- <-.
-    destruct (BIN (wadd w) (e_add w) d a b s1 (wadd_ev A) SB) as (sb' & I1 & R1 & P1 & F1 & F2 & F3 & EQ).
-    cbn [map io_run]. exists sb'. cbn [bc_exec]. rewrite NL, FE. subst sb'.
-    split; [reflexivity|]. split; [exact I1|]. split; [exact R1|]. split; [exact P1|]. split; [exact F1|split; [exact F2|exact F3]].
+    destruct (BIN (wadd w) (e_add w) d a b s1 (wadd_ev A) SB) as (I1 & R1 & P1 & F1 & F2 & F3).
+    cbn [map io_run]. exists (next (bc_binop w (wadd w) sb d a b)).
+    split; [intros f; cbn [bc_exec]; rewrite NL, FE; reflexivity|].
+    split; [exact I1|]. split; [exact R1|]. split; [exact P1|]. split; [exact F1|split; [exact F2|exact F3]].
   - destruct (sym_binop w (fun x y => e_add w x (e_neg w y)) st d a b) as [s1|] eqn:SB; [|discriminate]. injection H as <- <-.
     destruct (BIN (fun x y => wadd w x (wneg w y)) (fun x y => e_add w x (e_neg w y)) d a b s1 (wsub_ev A) SB)
-      as (sb' & I1 & R1 & P1 & F1 & F2 & F3 & EQ).
-    cbn [map io_run]. exists sb'. cbn [bc_exec]. rewrite NL, FE. subst sb'.
-    split; [reflexivity|]. split; [exact I1|]. split; [exact R1|]. split; [exact P1|]. split; [exact F1|split; [exact F2|exact F3]].
+      as (I1 & R1 & P1 & F1 & F2 & F3).
+    cbn [map io_run]. exists (next (bc_binop w (fun x y => wadd w x (wneg w y)) sb d a b)).
+    split; [intros f; cbn [bc_exec]; rewrite NL, FE; reflexivity|].
+    split; [exact I1|]. split; [exact R1|]. split; [exact P1|]. split; [exact F1|split; [exact F2|exact F3]].
   - destruct (sym_binop w (e_mul w) st d a b) as [s1|] eqn:SB; [|discriminate]. injection H as <- <-.
-    destruct (BIN (wmul w) (e_mul w) d a b s1 (wmul_ev A) SB) as (sb' & I1 & R1 & P1 & F1 & F2 & F3 & EQ).
-    cbn [map io_run]. exists sb'. cbn [bc_exec]. rewrite NL, FE. subst sb'.
-    split; [reflexivity|]. split; [exact I1|]. split; [exact R1|]. split; [exact P1|]. split; [exact F1|split; [exact F2|exact F3]].
+    destruct (BIN (wmul w) (e_mul w) d a b s1 (wmul_ev A) SB) as (I1 & R1 & P1 & F1 & F2 & F3).
+    cbn [map io_run]. exists (next (bc_binop w (wmul w) sb d a b)).
+    split; [intros f; cbn [bc_exec]; rewrite NL, FE; reflexivity|].
+    split; [exact I1|]. split; [exact R1|]. split; [exact P1|]. split; [exact F1|split; [exact F2|exact F3]].
   - destruct (sym_read w st a) as [[v s1]|] eqn:SR; [|discriminate]. injection H as <- <-.
     destruct (sym_read_sound A st sb a v s1 R SR) as (V1 & RB1 & (B1 & B2 & B3) & F1 & F2 & F3 & F4).
-    cbn [map io_run bc_exec]. rewrite NL, FE. destruct (bc_read w sb a) as [x sb1]. cbn [fst snd] in *.
+    cbn [map io_run]. destruct (bc_read w sb a) as [x sb1] eqn:BR. cbn [fst snd] in *.
     destruct (sym_write_sound A s1 sb1 d v x RB1 V1) as (RW & (W1 & W2 & W3) & G1 & G2 & G3 & G4).
-    exists (next (bc_write sb1 d x)). split; [reflexivity|]. split; [cbn; congruence|]. split; [exact RW|].
+    exists (next (bc_write sb1 d x)). split; [intros f; cbn [bc_exec]; rewrite NL, FE, BR; reflexivity|].
+    split; [cbn; congruence|]. split; [exact RW|].
     split; [cbn; congruence|]. split; [congruence|]. split; congruence.
 Qed.
 
 Lemma sym_bc_sound : forall seg A st sb st' evs, RB A st sb -> sym_bc w seg st = Some (st', evs) ->
-  (forall j, (j < length seg)%nat -> code_at code (bc_pc sb + Z.of_nat j) = nth_error seg j) -> forall f,
+  (forall j, (j < length seg)%nat -> code_at code (bc_pc sb + Z.of_nat j) = nth_error seg j) ->
   match io_run (map (cev A) evs) (bc_io sb) with
-  | (io', true) => exists sb', bexec (length seg + f) sb = bexec f sb' /\ bc_io sb' = io' /\ RB A st' sb'
+  | (io', true) => exists sb', (forall f, bexec (length seg + f) sb = bexec f sb') /\ bc_io sb' = io' /\ RB A st' sb'
                                /\ bc_pc sb' = bc_pc sb + Z.of_nat (length seg)
                                /\ s_ci st' = s_ci st /\ s_d st' = s_d st /\ s_nz st' = s_nz st
-  | (io', false) => exists sb', bexec (length seg + f) sb = Stopped sb' /\ bc_io sb' = io'
+  | (io', false) => exists sb', (forall f, bexec (length seg + f) sb = Stopped sb') /\ bc_io sb' = io'
   end.
 Proof.
-  induction seg as [|i seg IH]; intros A st sb st' evs R H AT f; cbn [sym_bc] in H.
+  induction seg as [|i seg IH]; intros A st sb st' evs R H AT; cbn [sym_bc] in H.
   - injection H as <- <-. cbn. exists sb. split; [reflexivity|]. split; [reflexivity|]. split; [exact R|].
     split; [lia|]. split; [reflexivity|split; reflexivity].
   - destruct (sym_bc_step w st i) as [[st1 e1]|] eqn:S1; [|discriminate].
@@ -537,18 +543,18 @@ Proof.
     rewrite map_app, io_run_app.
     assert (CA : code_at code (bc_pc sb) = Some i).
     { specialize (AT 0%nat ltac:(cbn; lia)). cbn in AT. rewrite Z.add_0_r in AT. exact AT. }
-    pose proof (sym_bc_step_sound A st sb i st1 e1 R S1 CA (length seg + f)) as ST.
+    pose proof (sym_bc_step_sound A st sb i st1 e1 R S1 CA) as ST.
     destruct (io_run (map (cev A) e1) (bc_io sb)) as [io1 [|]].
     + destruct ST as (sb1 & E1 & I1 & R1 & P1 & F1 & F2 & F3).
       assert (AT1 : forall j, (j < length seg)%nat -> code_at code (bc_pc sb1 + Z.of_nat j) = nth_error seg j).
       { intros j J. specialize (AT (S j) ltac:(cbn; lia)). cbn [nth_error] in AT. rewrite <- AT. f_equal. lia. }
-      specialize (IH A st1 sb1 st2 e2 R1 S2 AT1 f). rewrite I1 in IH.
-      cbn [length plus]. rewrite E1.
+      specialize (IH A st1 sb1 st2 e2 R1 S2 AT1). rewrite I1 in IH.
       destruct (io_run (map (cev A) e2) io1) as [io2 [|]].
-      * destruct IH as (sb2 & E2 & I2 & R2 & P2 & G1 & G2 & G3). exists sb2. split; [exact E2|]. split; [exact I2|].
+      * destruct IH as (sb2 & E2 & I2 & R2 & P2 & G1 & G2 & G3). exists sb2.
+        split; [intros f; cbn [length plus]; rewrite E1; apply E2|]. split; [exact I2|].
         split; [exact R2|]. split; [rewrite P2, P1; cbn [length]; lia|]. split; [congruence|split; congruence].
-      * exact IH.
-    + destruct ST as (sb1 & E1 & I1). exists sb1. cbn [length plus]. split; [exact E1|exact I1].
+      * destruct IH as (sb2 & E2 & I2). exists sb2. split; [intros f; cbn [length plus]; rewrite E1; apply E2|exact I2].
+    + destruct ST as (sb1 & E1 & I1). exists sb1. split; [intros f; cbn [length plus]; apply E1|exact I1].
 Qed.
 
 (** the extracted segment sits in the code at [pc] and consists of straight-line instructions *)
@@ -809,4 +815,553 @@ Proof.
   - intros k ND. cbn [st_of_facts s_d] in ND. cbn [A' anchor_of a_ti a_tb a_ptr]. rewrite PB, (SAME k ND). reflexivity.
   - intros q IN. cbn [st_of_facts s_nz] in IN. specialize (HNZ q IN). apply andb_prop in HNZ. destruct HNZ as [OK NZq].
     subst A'. rewrite <- (subst_sound A st si sb q R OK). apply (nonzero_in_sound A st si sb _ R NZq).
+Qed.
+
+Lemma look_map_t : forall (g : Z -> expr -> expr) t m,
+  look t (map (fun tp => (fst tp, g (fst tp) (snd tp))) m) = option_map (g t) (look t m).
+Proof.
+  intros g t m. induction m as [|[t' p] m IH]; [reflexivity|]. cbn [map look fst snd].
+  destruct (t' =? t) eqn:E; [apply Z.eqb_eq in E; subst; reflexivity|exact IH].
+Qed.
+
+Lemma is_const_ev : forall A A' p, is_const p = true -> ev A p = ev A' p.
+Proof.
+  intros A A' p H. unfold ev. apply eval_ext_in. intros v IN. exfalso.
+  destruct p as [|[c [|x vs]] [|p2 p]]; try discriminate; cbn in IN; tauto.
+Qed.
+
+Lemma memz_true : forall k l, List.In k l -> memz k l = true.
+Proof.
+  intros k l. induction l as [|x l IH]; intros H; [destruct H|]. cbn [memz]. destruct H as [H|H].
+  - subst. rewrite Z.eqb_refl. reflexivity.
+  - rewrite (IH H). apply orb_true_r.
+Qed.
+
+Lemma moved_sound : forall A st si sb shift, Rel A st si sb ->
+  Rel (anchor_of (ir_move si shift) (bc_move sb shift)) (moved w st shift) (ir_move si shift) (bc_move sb shift).
+Proof.
+  intros A st si sb shift R.
+  pose proof R as ((PI & IPI & NI & CI) & (PB & IPB & NB & CB & TB) & IO & AG & NZ).
+  assert (VI : forall k, tget (ir_tape si) (a_ptr A + shift + k) mod M = tget (ir_tape si) (a_ptr A + shift + k)).
+  { intros k. replace (a_ptr A + shift + k) with (a_ptr A + (shift + k)) by lia. rewrite CI. apply ev_red. }
+  assert (VB : forall k, tget (bc_tape sb) (a_ptr A + shift + k) mod M = tget (bc_tape sb) (a_ptr A + shift + k)).
+  { intros k. replace (a_ptr A + shift + k) with (a_ptr A + (shift + k)) by lia. rewrite CB. apply ev_red. }
+  assert (SAME : forall k, memz k (s_d (moved w st shift)) = false ->
+            tget (ir_tape si) (a_ptr A + shift + k) = tget (bc_tape sb) (a_ptr A + shift + k)).
+  { intros k ND. replace (a_ptr A + shift + k) with (a_ptr A + (shift + k)) by lia.
+    apply (same_value A st si sb (shift + k) R).
+    destruct (in_dec Z.eq_dec (shift + k) (TV.keys st)) as [IK|NK]; [|right; exact NK]. left.
+    destruct (agree w st (shift + k)) eqn:AGk; [reflexivity|]. exfalso.
+    cbn [moved s_d] in ND. rewrite memz_true in ND; [discriminate|].
+    apply in_map_iff. exists (shift + k). split; [lia|]. apply filter_In. split; [exact IK|rewrite AGk; reflexivity]. }
+  split; [|split; [|split; [exact IO|split]]].
+  - split; [cbn; lia|]. split; [cbn; rewrite IO; lia|]. split; [cbn; lia|].
+    intros k. cbn [anchor_of a_ptr bc_move bc_ptr ir_move ir_tape]. rewrite PB.
+    unfold cell_i. cbn [moved s_ci look].
+    destruct (memz k (s_d (moved w st shift))) eqn:MD.
+    + rewrite ev_var, rho_axi. cbn [anchor_of a_ti a_ptr bc_move bc_ptr ir_move ir_tape]. rewrite PB. symmetry. apply VI.
+    + rewrite ev_var, rho_acell. cbn [anchor_of a_tb a_ptr bc_move bc_ptr bc_tape]. rewrite PB, <- (SAME k MD). symmetry. apply VI.
+  - split; [cbn; reflexivity|]. split; [cbn; lia|]. split; [cbn; lia|]. split.
+    + intros k. cbn [anchor_of a_ptr bc_move bc_ptr bc_tape]. rewrite PB.
+      unfold cell_b. cbn [moved s_cb look].
+      destruct (memz k (s_d (moved w st shift))) eqn:MD.
+      * rewrite ev_var, rho_axb. cbn [anchor_of a_tb a_ptr bc_move bc_ptr bc_tape]. rewrite PB. symmetry. apply VB.
+      * rewrite ev_var, rho_acell. cbn [anchor_of a_tb a_ptr bc_move bc_ptr bc_tape]. rewrite PB. symmetry. apply VB.
+    + intros t q L. cbn [moved s_t] in L.
+      rewrite (look_map_t (fun t p => if is_const p then p else e_var (atmp t))) in L.
+      destruct (look t (s_t st)) as [p|] eqn:LT; [|discriminate]. cbn [option_map] in L. injection L as <-.
+      cbn [bc_move bc_tmps]. rewrite (TB t p LT). destruct (is_const p) eqn:IC.
+      * apply is_const_ev. exact IC.
+      * rewrite ev_var, rho_atmp. cbn [anchor_of a_tmps bc_move bc_tmps]. rewrite (TB t p LT). symmetry. apply ev_red.
+  - intros k ND. cbn [anchor_of a_ti a_tb a_ptr bc_move bc_ptr bc_tape ir_move ir_tape]. rewrite PB, (SAME k ND). reflexivity.
+  - intros q IN. cbn [moved s_nz] in IN. destruct IN.
+Qed.
+
+(** ** one straight-line region on both sides *)
+Lemma region_sound : forall A st si sb pre seg st1 rest, Rel A st si sb ->
+  forallb is_simple pre = true -> sym_region w pre seg st = Some st1 ->
+  (forall j, (j < length seg)%nat -> code_at code (bc_pc sb + Z.of_nat j) = nth_error seg j) ->
+  forall f,
+  (exists si1 sb1, ir_exec w e false (length pre + f) (pre ++ rest) si = ir_exec w e false f rest si1
+       /\ reach sb sb1 /\ Rel A st1 si1 sb1 /\ bc_pc sb1 = bc_pc sb + Z.of_nat (length seg))
+  \/ (exists si', ir_exec w e false (length pre + f) (pre ++ rest) si = Stopped si' /\ reach_stop sb (ir_io si')).
+Proof.
+  intros A st si sb pre seg st1 rest R SP H AT f. unfold sym_region in H.
+  destruct (sym_ir w pre st) as [sti evi] eqn:SI. destruct (sym_bc w seg st) as [[stb evb]|] eqn:SB; [|discriminate].
+  destruct (ev_eq w evi evb && (s_n sti =? s_n stb)) eqn:C; [|discriminate]. injection H as <-.
+  apply andb_prop in C. destruct C as [EV NN]. apply Z.eqb_eq in NN.
+  pose proof R as (RI0 & RB0 & IO & AG & NZ).
+  pose proof (sym_ir_sound pre SP A st si sti evi rest f RI0 SI) as HI.
+  destruct (sym_ir_frame _ _ _ _ SI) as (FI1 & FI2 & FI3 & FI4).
+  rewrite (ev_eq_sound A _ _ EV), IO in HI.
+  pose proof (sym_bc_sound seg A st sb stb evb RB0 SB AT) as HB.
+  destruct (io_run (map (cev A) evb) (bc_io sb)) as [io' [|]] eqn:RUN.
+  - left. destruct HI as (si1 & E1 & I1 & R1). destruct HB as (sb1 & E2 & I2 & R2 & P2 & G1 & G2 & G3).
+    exists si1, sb1. split; [exact E1|]. split; [apply (reach_steps (length seg)); exact E2|]. split; [|exact P2].
+    split; [apply (RI_ext A sti _ si1 R1); cbn; congruence|].
+    split; [apply (RB_ext A stb _ sb1 R2); cbn; congruence|].
+    split; [congruence|]. split; [exact AG|exact NZ].
+  - right. destruct HI as (si1 & E1 & I1). destruct HB as (sb1 & E2 & I2). exists si1. split; [exact E1|].
+    exists (length seg + 0)%nat, sb1. split; [apply E2|congruence].
+Qed.
+
+(** ** the relation only looks at tape, pointer, I/O state and temporaries *)
+Lemma Rel_ext : forall A st si sb si' sb', Rel A st si sb ->
+  ir_tape si' = ir_tape si -> ir_ptr si' = ir_ptr si -> ir_io si' = ir_io si ->
+  bc_tape sb' = bc_tape sb -> bc_ptr sb' = bc_ptr sb -> bc_io sb' = bc_io sb -> bc_tmps sb' = bc_tmps sb ->
+  Rel A st si' sb'.
+Proof.
+  intros A st si sb si' sb' ((PI & IPI & NI & CI) & (PB & IPB & NB & CB & TB) & IO & AG & NZ) E1 E2 E3 E4 E5 E6 E7.
+  split; [split; [congruence|split; [rewrite E3; exact IPI|split; [exact NI|intros k; rewrite E1; apply CI]]]|].
+  split; [split; [congruence|split; [rewrite E6; exact IPB|split; [exact NB|split; [intros k; rewrite E4; apply CB|intros t p L; rewrite E7; apply (TB t p L)]]]]|].
+  split; [congruence|]. split; [exact AG|exact NZ].
+Qed.
+
+Lemma anchor_ext : forall si sb si' sb',
+  ir_tape si' = ir_tape si -> bc_tape sb' = bc_tape sb -> bc_ptr sb' = bc_ptr sb -> bc_io sb' = bc_io sb ->
+  bc_tmps sb' = bc_tmps sb -> anchor_of si' sb' = anchor_of si sb.
+Proof. intros si sb si' sb' E1 E2 E3 E4 E5. unfold anchor_of. rewrite E1, E2, E3, E4, E5. reflexivity. Qed.
+
+Definition SimC (o : outcome irst) (sb : bcst) (pc' : Z) (st' : sst) : Prop :=
+  match o with
+  | Done si' => exists A' sb', reach sb sb' /\ bc_pc sb' = pc' /\ Rel A' st' si' sb'
+  | Stopped si' => reach_stop sb (ir_io si')
+  | _ => True
+  end.
+
+Lemma SimC_reach : forall o sb sb1 pc' st', reach sb sb1 -> SimC o sb1 pc' st' -> SimC o sb pc' st'.
+Proof.
+  intros o sb sb1 pc' st' RE H. destruct o as [s|s|s|p s|s]; cbn [SimC] in *; try exact I.
+  - destruct H as (A' & sb' & R1 & P & RL). exists A', sb'. split; [exact (reach_trans _ _ _ RE R1)|split; assumption].
+  - exact (reach_then_stop _ _ _ RE H).
+Qed.
+
+(** ** control instructions of the bytecode *)
+Lemma step_brz : forall s c off, code_at code (bc_pc s) = Some (BrZ c off) ->
+  reach s (if bc_mem s c =? 0 then bc_set_pc s (bc_pc s + off) else next s).
+Proof.
+  intros s c off CA. destruct (bexec_at 0 s _ CA) as (_ & NL & FE). apply (reach_steps 1). intros f.
+  cbn [plus bc_exec]. rewrite NL, FE. destruct (bc_mem s c =? 0); reflexivity.
+Qed.
+Lemma step_brnz : forall s c off, code_at code (bc_pc s) = Some (BrNZ c off) ->
+  reach s (if bc_mem s c =? 0 then next s else bc_set_pc s (bc_pc s + off)).
+Proof.
+  intros s c off CA. destruct (bexec_at 0 s _ CA) as (_ & NL & FE). apply (reach_steps 1). intros f.
+  cbn [plus bc_exec]. rewrite NL, FE. destruct (bc_mem s c =? 0); reflexivity.
+Qed.
+Lemma step_mov : forall s sh, code_at code (bc_pc s) = Some (MovP sh) -> reach s (next (bc_move s sh)).
+Proof.
+  intros s sh CA. destruct (bexec_at 0 s _ CA) as (_ & NL & FE). apply (reach_steps 1). intros f.
+  cbn [plus bc_exec]. rewrite NL, FE. reflexivity.
+Qed.
+
+Lemma Rel_mem : forall A st si sb k, Rel A st si sb -> agree w st k = true -> ir_read si k = bc_mem sb k.
+Proof.
+  intros A st si sb k R AGk. pose proof R as ((PI & _ & _ & CI) & (PB & _ & _ & CB & _) & _).
+  unfold ir_read, bc_mem. rewrite PI, PB, CI, CB. apply agree_sound. exact AGk.
+Qed.
+
+Lemma ir_read_red : forall A st si sb k, Rel A st si sb -> ir_read si k mod M = ir_read si k.
+Proof. intros A st si sb k ((PI & _ & _ & CI) & _). unfold ir_read. rewrite PI, CI. apply ev_red. Qed.
+
+(** the fact added at the head of a loop body *)
+Lemma head_fact : forall si sb f cond, Rel (anchor_of si sb) (st_of_facts f) si sb -> ir_read si cond <> 0 ->
+  Rel (anchor_of si sb) (add_nz (st_of_facts f) (e_var (if memz cond (f_d f) then axi cond else acell cond))) si sb.
+Proof.
+  intros si sb f cond R NZc. pose proof R as (RI0 & RB0 & IO & AG & NZ).
+  split; [exact RI0|]. split; [exact RB0|]. split; [exact IO|]. split; [exact AG|].
+  intros p IN. cbn [add_nz s_nz] in IN. destruct IN as [<-|IN]; [|apply NZ; exact IN].
+  pose proof (ir_read_red _ _ _ _ cond R) as RED.
+  destruct RI0 as (PI & _). cbn [anchor_of a_ptr] in PI.
+  destruct (memz cond (f_d f)) eqn:MD; rewrite ev_var.
+  - rewrite rho_axi. cbn [anchor_of a_ti a_ptr]. rewrite <- PI. fold (ir_read si cond). rewrite RED. exact NZc.
+  - rewrite rho_acell. cbn [anchor_of a_tb a_ptr]. specialize (AG cond MD). cbn [anchor_of a_ti a_tb a_ptr] in AG.
+    rewrite <- AG, <- PI. fold (ir_read si cond). rewrite RED. exact NZc.
+Qed.
+
+Lemma ir_move_0 : forall s, ir_move s 0 = s.
+Proof. intros [t p i b]. unfold ir_move. cbn. rewrite Z.add_0_r. reflexivity. Qed.
+
+Lemma after_move_sound : forall pc2 stb shift pc3 stb' A s2 sb2,
+  after_move w code pc2 stb shift = Some (pc3, stb') -> Rel A stb s2 sb2 -> bc_pc sb2 = pc2 ->
+  exists A3 sb3, reach sb2 sb3 /\ bc_pc sb3 = pc3 /\ Rel A3 stb' (ir_move s2 shift) sb3.
+Proof.
+  intros pc2 stb shift pc3 stb' A s2 sb2 H R P. unfold after_move in H. destruct (shift =? 0) eqn:S0.
+  - apply Z.eqb_eq in S0. subst shift. injection H as <- <-. exists A, sb2. rewrite ir_move_0.
+    split; [apply reach_refl|]. split; [exact P|exact R].
+  - destruct (code_at code pc2) as [[| | sh | | | | | | | |]|] eqn:CA; try discriminate.
+    destruct (sh =? shift) eqn:ES; [|discriminate]. apply Z.eqb_eq in ES. subst sh. injection H as <- <-.
+    rewrite <- P in CA. exists (anchor_of (ir_move s2 shift) (bc_move sb2 shift)), (next (bc_move sb2 shift)).
+    split; [apply step_mov; exact CA|]. split; [cbn; lia|].
+    apply (Rel_ext _ _ (ir_move s2 shift) (bc_move sb2 shift)); try reflexivity. apply (moved_sound A). exact R.
+Qed.
+
+Lemma ir_loop_unfold : forall f cond shift body once rest s,
+  ir_exec w e false (S f) (ILoop cond shift body once :: rest) s =
+  if ir_read s cond =? 0 then ir_exec w e false f rest s
+  else match ir_exec w e false f body s with
+       | Stopped s' => Stopped s'
+       | OutOfFuel s' => OutOfFuel s'
+       | Errored p s' => Errored p s'
+       | Done s' | Interrupted s' => ir_exec w e false f (ILoop cond shift body once :: rest) (ir_move s' shift)
+       end.
+Proof. reflexivity. Qed.
+
+Lemma ir_if_unfold : forall f cond shift body rest s,
+  ir_exec w e false (S f) (IIf cond shift body :: rest) s =
+  if ir_read s cond =? 0 then ir_exec w e false f rest s
+  else match ir_exec w e false f body s with
+       | Stopped s' => Stopped s'
+       | OutOfFuel s' => OutOfFuel s'
+       | Errored p s' => Errored p s'
+       | Done s' | Interrupted s' => ir_exec w e false f rest (ir_move s' shift)
+       end.
+Proof. reflexivity. Qed.
+
+Section Loop.
+Variables (cond shift : Z) (body rest' : list instr) (once : bool).
+Variables (head back : Z) (inv : facts).
+Variables (pc2 pc' : Z) (stb stb' st' : sst).
+Notation fi := (st_of_facts inv).
+Notation ent := (add_nz (st_of_facts inv) (e_var (if memz cond (f_d inv) then axi cond else acell cond))).
+Notation LOOP := (ILoop cond shift body once :: rest').
+Hypothesis BODY : forall f A si sb, Rel A ent si sb -> bc_pc sb = head -> SimC (ir_exec w e false f body si) sb pc2 stb.
+Hypothesis REST : forall f A si sb, Rel A (if once then stb' else fi) si sb -> bc_pc sb = back + 1 ->
+  SimC (ir_exec w e false f rest' si) sb pc' st'.
+Hypothesis MOVE : after_move w code pc2 stb shift = Some (back, stb').
+Hypothesis BACKI : exists off, code_at code back = Some (BrNZ cond off) /\ back + off = head.
+Hypothesis AGB : agree w stb' cond = true.
+Hypothesis ENT : entails w stb' inv = true.
+
+Definition loop_cont (f : nat) (si : irst) : outcome irst :=
+  match ir_exec w e false f body si with
+  | Stopped s' => Stopped s'
+  | OutOfFuel s' => OutOfFuel s'
+  | Errored p s' => Errored p s'
+  | Done s' | Interrupted s' => ir_exec w e false f LOOP (ir_move s' shift)
+  end.
+
+Lemma head_from_back : forall f,
+  (forall A si sb, Rel A stb' si sb -> bc_pc sb = back -> SimC (ir_exec w e false f LOOP si) sb pc' st') ->
+  forall si sb, Rel (anchor_of si sb) fi si sb -> bc_pc sb = head -> ir_read si cond <> 0 ->
+  SimC (loop_cont f si) sb pc' st'.
+Proof.
+  intros f BK si sb R P NZc. unfold loop_cont.
+  pose proof (BODY f _ si sb (head_fact si sb inv cond R NZc) P) as HB.
+  pose proof (ir_unlimited_outcomes w e f body si) as UN.
+  destruct (ir_exec w e false f body si) as [s2|s2|s2|p s2|s2]; cbn [SimC] in *; try exact I; try contradiction.
+  - destruct HB as (A2 & sb2 & RE & P2 & R2).
+    destruct (after_move_sound _ _ _ _ _ A2 s2 sb2 MOVE R2 P2) as (A3 & sb3 & RE3 & P3 & R3).
+    apply (SimC_reach _ sb sb3); [exact (reach_trans _ _ _ RE RE3)|]. apply (BK A3); assumption.
+  - exact HB.
+Qed.
+
+Lemma back_sound : forall f A si sb, Rel A stb' si sb -> bc_pc sb = back -> SimC (ir_exec w e false f LOOP si) sb pc' st'.
+Proof.
+  induction f as [|f IH]; intros A si sb R P; [exact I|].
+  rewrite ir_loop_unfold. destruct BACKI as (off & CA & TG). rewrite <- P in CA.
+  pose proof (step_brnz sb cond off CA) as ST. rewrite <- (Rel_mem A stb' si sb cond R AGB) in ST.
+  pose proof (entails_sound A stb' si sb inv R ENT) as RA.
+  destruct (ir_read si cond =? 0) eqn:Z0.
+  - apply (SimC_reach _ sb (next sb) _ _ ST). destruct once eqn:ON.
+    + apply (REST f A). * apply (Rel_ext A stb' si sb); try reflexivity. exact R. * cbn. lia.
+    + apply (REST f (anchor_of si sb)). * apply (Rel_ext _ fi si sb); try reflexivity. exact RA. * cbn. lia.
+  - apply (SimC_reach _ sb (bc_set_pc sb (bc_pc sb + off)) _ _ ST).
+    apply (head_from_back f IH).
+    + rewrite (anchor_ext si sb si (bc_set_pc sb (bc_pc sb + off))) by reflexivity.
+      apply (Rel_ext _ fi si sb); try reflexivity. exact RA.
+    + cbn. lia.
+    + apply Z.eqb_neq. exact Z0.
+Qed.
+End Loop.
+
+(** ** fused scans *)
+Lemma scan_exit : forall s c sh, code_at code (bc_pc s) = Some (Scan c sh) -> (bc_mem s c =? 0) = true -> reach s (next s).
+Proof.
+  intros s c sh CA Z0. destruct (bexec_at 0 s _ CA) as (_ & NL & FE). apply (reach_steps 1). intros f.
+  cbn [plus bc_exec andb bc_scan]. rewrite NL, FE, Z0. reflexivity.
+Qed.
+
+Lemma bexec_scan : forall s c sh f, code_at code (bc_pc s) = Some (Scan c sh) ->
+  bexec (S f) s = match bc_scan (S f) c sh s with Some s' => bexec f (next s') | None => OutOfFuel s end.
+Proof.
+  intros s c sh f CA. destruct (bexec_at 0 s _ CA) as (_ & NL & FE). cbn [bc_exec andb]. rewrite NL, FE. reflexivity.
+Qed.
+
+Lemma scan_unroll : forall s c sh, code_at code (bc_pc s) = Some (Scan c sh) -> (bc_mem s c =? 0) = false ->
+  reach s (bc_move s sh).
+Proof.
+  intros s c sh CA NZ.
+  assert (CA' : code_at code (bc_pc (bc_move s sh)) = Some (Scan c sh)) by exact CA.
+  exists 1%nat. intros f o H T. destruct f as [|f]; [cbn in H; subst o; contradiction|].
+  rewrite (bexec_scan _ c sh f CA') in H.
+  change (1 + S f)%nat with (S (S f)). rewrite (bexec_scan _ c sh (S f) CA).
+  change (bc_scan (S (S f)) c sh s) with (if bc_mem s c =? 0 then Some s else bc_scan (S f) c sh (bc_move s sh)).
+  rewrite NZ.
+  destruct (bc_scan (S f) c sh (bc_move s sh)) as [s'|] eqn:SC; [|subst o; contradiction].
+  apply (bexec_mono f _ _ H T). lia.
+Qed.
+
+Lemma all_agree_filter : forall st, all_agree w st = true -> filter (fun k => negb (agree w st k)) (TV.keys st) = [].
+Proof.
+  intros st H. unfold all_agree in H. rewrite forallb_forall in H.
+  induction (TV.keys st) as [|k l IH]; [reflexivity|]. cbn [filter].
+  rewrite (H k (or_introl eq_refl)). cbn [negb]. apply IH. intros x IN. apply H. right. exact IN.
+Qed.
+
+Lemma moved_shift_irrelevant : forall st s s', all_agree w st = true -> moved w st s = moved w st s'.
+Proof. intros st s s' H. unfold moved. rewrite (all_agree_filter st H). reflexivity. Qed.
+
+Lemma moved_form : forall st s, all_agree w st = true ->
+  moved w st s = {| s_ci := []; s_cb := []; s_d := [];
+                    s_t := map (fun tp => (fst tp, if is_const (snd tp) then snd tp else e_var (atmp (fst tp)))) (s_t st);
+                    s_nz := []; s_n := 0 |}.
+Proof. intros st s H. unfold moved. rewrite (all_agree_filter st H). reflexivity. Qed.
+
+Lemma moved_idem : forall st s, all_agree w st = true -> moved w (moved w st s) s = moved w st s.
+Proof.
+  intros st s H. rewrite (moved_form st s H). unfold moved. cbn [TV.keys s_ci s_cb s_d s_t map app filter]. f_equal.
+  rewrite map_map. apply map_ext. intros [t p]. cbn [fst snd]. destruct (is_const p) eqn:IC; [rewrite IC; reflexivity|reflexivity].
+Qed.
+
+Lemma moved_keys : forall st s, all_agree w st = true -> TV.keys (moved w st s) = [].
+Proof. intros st s H. unfold TV.keys, moved. cbn [s_ci s_cb s_d]. rewrite (all_agree_filter st H). reflexivity. Qed.
+
+Section ScanLoop.
+Variables (cond shift : Z) (rest' : list instr) (once : bool) (pc1 pc' : Z) (st1 st' : sst).
+Notation LOOP := (ILoop cond shift [] once :: rest').
+Hypothesis CAS : code_at code pc1 = Some (Scan cond shift).
+Hypothesis AGC : agree w st1 cond = true.
+Hypothesis REST : forall f A si sb, Rel A (if shift =? 0 then st1 else moved w st1 shift) si sb -> bc_pc sb = pc1 + 1 ->
+  SimC (ir_exec w e false f rest' si) sb pc' st'.
+
+Lemma scan0_sound : shift = 0 -> forall f A si sb, Rel A st1 si sb -> bc_pc sb = pc1 ->
+  SimC (ir_exec w e false f LOOP si) sb pc' st'.
+Proof.
+  intros S0. induction f as [|f IH]; intros A si sb R P; [exact I|].
+  rewrite ir_loop_unfold. rewrite <- P in CAS. rewrite (Rel_mem A st1 si sb cond R AGC).
+  destruct (bc_mem sb cond =? 0) eqn:Z0.
+  - apply (SimC_reach _ sb (next sb) _ _ (scan_exit sb cond shift CAS Z0)).
+    apply (REST f A); [|cbn; lia]. rewrite S0. cbn. apply (Rel_ext A st1 si sb); try reflexivity. exact R.
+  - destruct f as [|f0]; [exact I|]. cbn [ir_exec]. rewrite S0, ir_move_0.
+    rewrite S0 in IH. apply (IH A si sb R). rewrite P. reflexivity.
+Qed.
+
+Hypothesis ALL : all_agree w st1 = true.
+
+Lemma scan_start : forall A si sb, Rel A st1 si sb -> Rel (anchor_of si sb) (moved w st1 shift) si sb.
+Proof.
+  intros A si sb R. pose proof (moved_sound A st1 si sb 0 R) as H. rewrite ir_move_0 in H.
+  rewrite (moved_shift_irrelevant st1 shift 0 ALL).
+  rewrite (anchor_ext si sb si (bc_move sb 0)) in H by (try reflexivity; cbn; lia).
+  apply (Rel_ext _ _ si (bc_move sb 0)); try reflexivity; [exact H|cbn; lia].
+Qed.
+
+Hypothesis SNZ : shift <> 0.
+
+Lemma scanN_sound : forall f A si sb, Rel A (moved w st1 shift) si sb -> bc_pc sb = pc1 ->
+  SimC (ir_exec w e false f LOOP si) sb pc' st'.
+Proof.
+  induction f as [|f IH]; intros A si sb R P; [exact I|].
+  rewrite ir_loop_unfold. rewrite <- P in CAS.
+  assert (EQ : ir_read si cond = bc_mem sb cond).
+  { pose proof R as ((PI & _) & (PB & _) & _). unfold ir_read, bc_mem. rewrite PI, PB.
+    apply (same_value A _ si sb cond R). right. rewrite (moved_keys st1 shift ALL). intros []. }
+  rewrite EQ. destruct (bc_mem sb cond =? 0) eqn:Z0.
+  - apply (SimC_reach _ sb (next sb) _ _ (scan_exit sb cond shift CAS Z0)).
+    apply (REST f A); [|cbn; lia]. destruct (shift =? 0) eqn:S0; [apply Z.eqb_eq in S0; contradiction|].
+    apply (Rel_ext A _ si sb); try reflexivity. exact R.
+  - destruct f as [|f0]; [exact I|]. change (ir_exec w e false (S f0) [] si) with (Done si).
+    apply (SimC_reach _ sb (bc_move sb shift) _ _ (scan_unroll sb cond shift CAS Z0)).
+    apply (IH (anchor_of (ir_move si shift) (bc_move sb shift))); [|cbn; rewrite <- P; reflexivity].
+    rewrite <- (moved_idem st1 shift ALL). apply (moved_sound A). exact R.
+Qed.
+End ScanLoop.
+
+(** ** the main induction over the checker *)
+Ltac split_ands :=
+  repeat match goal with
+         | H : _ && _ = true |- _ => apply andb_prop in H; destruct H
+         end.
+
+Lemma is_nil_spec : forall (X : Type) (l : list X), is_nil l = true -> l = [].
+Proof. intros X [|x l] H; [reflexivity|discriminate]. Qed.
+
+Lemma tv_block_sound : forall n fuse insts pc stop st cs pc' st' cs',
+  tv_block n w fuse code insts pc stop st cs = Some (pc', st', cs') -> 0 <= pc ->
+  forall f A si sb, Rel A st si sb -> bc_pc sb = pc -> SimC (ir_exec w e false f insts si) sb pc' st'.
+Proof.
+  induction n as [|n IH]; intros fuse insts pc stop st cs pc' st' cs' H PC0 f A si sb R P; [discriminate|].
+  cbn [tv_block] in H.
+  destruct (split_simple insts) as [pre rest] eqn:SS.
+  destruct (split_simple_spec _ _ _ SS) as (EI & SP & HR).
+  remember (bc_segment code pc stop (next_head fuse rest cs)) as seg eqn:SEG.
+  destruct (sym_region w pre seg st) as [st1|] eqn:SR; [|discriminate].
+  assert (K : forall o, ir_exec w e false (length pre + f) (pre ++ rest) si = o -> SimC o sb pc' st').
+  { intros o EO.
+    assert (AT : forall j, (j < length seg)%nat -> code_at code (bc_pc sb + Z.of_nat j) = nth_error seg j).
+    { intros j J. rewrite P, SEG. apply segment_at; [exact PC0|rewrite <- SEG; exact J]. }
+    destruct (region_sound A st si sb pre seg st1 rest R SP SR AT f) as [(si1 & sb1 & E1 & RE & R1 & P1)|(si' & E1 & RS)].
+    2:{ rewrite E1 in EO. subst o. exact RS. }
+    rewrite E1 in EO. subst o. apply (SimC_reach _ sb sb1 _ _ RE). rewrite P in P1.
+    set (pc1 := pc + Z.of_nat (length seg)) in *.
+    assert (PC1 : 0 <= pc1) by (unfold pc1; lia).
+    clear E1 RE AT R P SR si sb.
+    destruct rest as [|i rest'].
+    { injection H as <- <- <-. destruct f as [|f]; [exact I|]. cbn [ir_exec SimC].
+      exists A, sb1. split; [apply reach_refl|]. split; [exact P1|exact R1]. }
+    destruct i as [src|dst|calcs|cond shift body once|cond shift body]; try discriminate.
+    - (* loop *)
+      destruct (code_at code pc1) as [b|] eqn:CB; [|discriminate].
+      destruct (fuse && is_nil body) eqn:FN.
+      + (* fused scan *)
+        apply andb_prop in FN. destruct FN as [_ NB]. apply is_nil_spec in NB. subst body.
+        destruct b as [|c sh| | | | | | | | |]; try discriminate.
+        destruct ((c =? cond) && (sh =? shift) && (pc1 <? stop) && agree w st1 cond && ((shift =? 0) || all_agree w st1)) eqn:CK; [|discriminate].
+        split_ands.
+        repeat match goal with Hx : (_ =? _) = true |- _ => apply Z.eqb_eq in Hx end. subst c sh.
+        rewrite <- P1 in CB.
+        assert (REST : forall f A si sb, Rel A (if shift =? 0 then st1 else moved w st1 shift) si sb -> bc_pc sb = bc_pc sb1 + 1 ->
+                  SimC (ir_exec w e false f rest' si) sb pc' st').
+        { intros f0 A0 si0 sb0 R0 P0. apply (IH _ _ _ _ _ _ _ _ _ H ltac:(lia) f0 A0 si0 sb0 R0). rewrite P0, P1. reflexivity. }
+        match goal with Hx : agree w st1 cond = true |- _ => pose proof Hx as AGC end.
+        destruct (Z.eq_dec shift 0) as [S0|SNZ].
+        * exact (scan0_sound cond shift rest' once (bc_pc sb1) pc' st1 st' CB AGC REST S0 f A si1 sb1 R1 eq_refl).
+        * assert (ALL : all_agree w st1 = true).
+          { match goal with Hx : (_ || _) = true |- _ => apply orb_prop in Hx; destruct Hx as [Hx|Hx]; [apply Z.eqb_eq in Hx; contradiction|exact Hx] end. }
+          exact (scanN_sound cond shift rest' once (bc_pc sb1) pc' st1 st' CB REST ALL SNZ f (anchor_of si1 sb1) si1 sb1
+                   (scan_start shift st1 ALL A si1 sb1 R1) eq_refl).
+      + (* general loop *)
+        destruct cs as [|[head back inv|?] cs1]; try discriminate.
+        match type of H with (if ?c then _ else _) = _ => destruct c eqn:CK; [|discriminate] end.
+        destruct (tv_block n w fuse code body head back _ cs1) as [[[pc2 stb] cs2]|] eqn:TB; [|discriminate].
+        destruct (after_move w code pc2 stb shift) as [[pc3 stb']|] eqn:AM; [|discriminate].
+        match type of H with (if ?c then _ else _) = _ => destruct c eqn:CK2; [|discriminate] end.
+        split_ands.
+        repeat match goal with Hx : (_ <=? _) = true |- _ => apply Z.leb_le in Hx end.
+        match goal with Hx : (pc3 =? back) = true |- _ => apply Z.eqb_eq in Hx; subst pc3 end.
+        assert (BODY : forall f A si sb, Rel A (add_nz (st_of_facts inv) (e_var (if memz cond (f_d inv) then axi cond else acell cond))) si sb ->
+                  bc_pc sb = head -> SimC (ir_exec w e false f body si) sb pc2 stb).
+        { intros f0 A0 si0 sb0 R0 P0. apply (IH _ _ _ _ _ _ _ _ _ TB ltac:(destruct once; split_ands; repeat match goal with Hx : (_ =? _) = true |- _ => apply Z.eqb_eq in Hx end; lia) f0 A0 si0 sb0 R0 P0). }
+        assert (REST : forall f A si sb, Rel A (if once then stb' else st_of_facts inv) si sb -> bc_pc sb = back + 1 ->
+                  SimC (ir_exec w e false f rest' si) sb pc' st').
+        { intros f0 A0 si0 sb0 R0 P0. apply (IH _ _ _ _ _ _ _ _ _ H ltac:(destruct once; split_ands; repeat match goal with Hx : (_ =? _) = true |- _ => apply Z.eqb_eq in Hx end; lia) f0 A0 si0 sb0 R0 P0). }
+        assert (BACKI : exists off, code_at code back = Some (BrNZ cond off) /\ back + off = head).
+        { destruct (code_at code back) as [[| | | | | |c off| | | |]|]; try discriminate. split_ands.
+          repeat match goal with Hx : (_ =? _) = true |- _ => apply Z.eqb_eq in Hx end. subst c. exists off. split; [reflexivity|assumption]. }
+        pose proof (back_sound cond shift body rest' once head back inv pc2 pc' stb stb' st' BODY REST AM BACKI ltac:(assumption) ltac:(assumption)) as BK.
+        pose proof (entails_sound A st1 si1 sb1 inv R1 ltac:(assumption)) as RA.
+        destruct f as [|f]; [exact I|]. rewrite ir_loop_unfold.
+        destruct once.
+        * (* no guard: the condition is known to be non-zero *)
+          split_ands. match goal with Hx : (pc1 =? head) = true |- _ => apply Z.eqb_eq in Hx end.
+          assert (NZc : ir_read si1 cond <> 0).
+          { pose proof R1 as (RI1 & _). rewrite (RI_read A st1 si1 cond RI1).
+            match goal with Hx : nonzero_in w st1 _ = true |- _ => apply (nonzero_in_sound A st1 si1 sb1 _ R1 Hx) end. }
+          destruct (ir_read si1 cond =? 0) eqn:Z0; [apply Z.eqb_eq in Z0; contradiction|].
+          apply (head_from_back cond shift body rest' true head back inv pc2 pc' stb stb' st' BODY AM f (BK f) si1 sb1 RA ltac:(lia) NZc).
+        * split_ands. destruct b as [| | | | |c off| | | | |]; try discriminate. split_ands.
+          repeat match goal with Hx : (_ =? _) = true |- _ => apply Z.eqb_eq in Hx end. subst c.
+          rewrite <- P1 in CB. pose proof (step_brz sb1 cond off CB) as ST.
+          rewrite <- (Rel_mem A st1 si1 sb1 cond R1 ltac:(assumption)) in ST.
+          destruct (ir_read si1 cond =? 0) eqn:Z0.
+          -- apply (SimC_reach _ sb1 _ _ _ ST). apply (REST f (anchor_of si1 sb1)); [|cbn; lia].
+             apply (Rel_ext _ _ si1 sb1); try reflexivity. exact RA.
+          -- apply (SimC_reach _ sb1 _ _ _ ST).
+             apply (head_from_back cond shift body rest' false head back inv pc2 pc' stb stb' st' BODY AM f (BK f)).
+             ++ rewrite (anchor_ext si1 sb1 si1 (next sb1)) by reflexivity. apply (Rel_ext _ _ si1 sb1); try reflexivity. exact RA.
+             ++ cbn. lia.
+             ++ apply Z.eqb_neq. exact Z0.
+    - (* if *)
+      destruct (code_at code pc1) as [[| | | | |c off| | | | |]|] eqn:CB; try discriminate.
+      destruct cs as [|[?|join] cs1]; try discriminate.
+      match type of H with (if ?c then _ else _) = _ => destruct c eqn:CK; [|discriminate] end.
+      destruct (tv_block n w fuse code body (pc1 + 1) (pc1 + off) _ cs1) as [[[pc2 stb] cs2]|] eqn:TB; [|discriminate].
+      destruct (after_move w code pc2 stb shift) as [[pc3 stb']|] eqn:AM; [|discriminate].
+      match type of H with (if ?c then _ else _) = _ => destruct c eqn:CK2; [|discriminate] end.
+      split_ands.
+      repeat match goal with Hx : (_ <=? _) = true |- _ => apply Z.leb_le in Hx end.
+      repeat match goal with Hx : (_ =? _) = true |- _ => apply Z.eqb_eq in Hx end. subst c pc3.
+      destruct f as [|f]; [exact I|]. rewrite ir_if_unfold.
+      rewrite <- P1 in CB. pose proof (step_brz sb1 cond off CB) as ST.
+      rewrite <- (Rel_mem A st1 si1 sb1 cond R1 ltac:(assumption)) in ST.
+      destruct (ir_read si1 cond =? 0) eqn:Z0.
+      + apply (SimC_reach _ sb1 _ _ _ ST).
+        apply (IH _ _ _ _ _ _ _ _ _ H ltac:(lia) f (anchor_of si1 sb1)); [|cbn; lia].
+        apply (Rel_ext _ _ si1 sb1); try reflexivity. apply (entails_sound A st1 si1 sb1 join R1). assumption.
+      + apply (SimC_reach _ sb1 _ _ _ ST).
+        assert (RE : Rel A (add_nz st1 (cell_b st1 cond)) si1 (next sb1)).
+        { apply (Rel_ext A _ si1 sb1); try reflexivity. destruct R1 as (RI1 & RB1 & IO1 & AG1 & NZ1).
+          split; [exact RI1|]. split; [exact RB1|]. split; [exact IO1|]. split; [exact AG1|].
+          intros p IN. cbn [add_nz s_nz] in IN. destruct IN as [<-|IN]; [|apply NZ1; exact IN].
+          rewrite <- (agree_sound A st1 cond ltac:(assumption)). rewrite <- (RI_read A st1 si1 cond RI1).
+          apply Z.eqb_neq. exact Z0. }
+        pose proof (IH _ _ _ _ _ _ _ _ _ TB ltac:(lia) f A si1 (next sb1) RE ltac:(cbn; lia)) as HB.
+        pose proof (ir_unlimited_outcomes w e f body si1) as UN.
+        destruct (ir_exec w e false f body si1) as [s2|s2|s2|p s2|s2]; cbn [SimC] in *; try exact I; try contradiction.
+        * destruct HB as (A2 & sb2 & RE2 & P2 & R2).
+          destruct (after_move_sound _ _ _ _ _ A2 s2 sb2 AM R2 P2) as (A3 & sb3 & RE3 & P3 & R3).
+          apply (SimC_reach _ _ sb3); [exact (reach_trans _ _ _ RE2 RE3)|].
+          apply (IH _ _ _ _ _ _ _ _ _ H ltac:(lia) f (anchor_of (ir_move s2 shift) sb3)); [|exact P3].
+          apply (entails_sound A3 stb' _ sb3 join R3). assumption.
+        * exact HB. }
+  remember (ir_exec w e false f insts si) as o eqn:EO.
+  destruct o as [s|s|s|p s|s]; try exact I.
+  - apply K. rewrite <- EI. symmetry in EO. apply (ir_exec_mono w e f insts si _ EO I). lia.
+  - apply K. rewrite <- EI. symmetry in EO. apply (ir_exec_mono w e f insts si _ EO I). lia.
+Qed.
+
+(** ** whole programs *)
+Lemma rel_init : forall b, Rel (anchor_of (ir0 b) (bc0 b)) st0 (ir0 b) (bc0 b).
+Proof.
+  intros b.
+  assert (Z0 : forall k, ev (anchor_of (ir0 b) (bc0 b)) (e_var (acell k)) = 0).
+  { intros k. rewrite ev_var, rho_acell. cbn. rewrite MachineProofs.tget_empty. apply Z.mod_0_l. pose proof Mp; lia. }
+  split; [|split; [|split; [reflexivity|split]]].
+  - split; [reflexivity|]. split; [reflexivity|]. split; [cbn; lia|]. intros k. cbn [ir0 ir_tape]. rewrite MachineProofs.tget_empty.
+    unfold cell_i. cbn [st0 s_ci s_d look memz]. symmetry. apply Z0.
+  - split; [reflexivity|]. split; [reflexivity|]. split; [cbn; lia|]. split.
+    + intros k. cbn [bc0 bc_tape]. rewrite MachineProofs.tget_empty. unfold cell_b. cbn [st0 s_cb s_d look memz]. symmetry. apply Z0.
+    + intros t p L. discriminate.
+  - intros k _. reflexivity.
+  - intros p [].
+Qed.
+
+Theorem tv_check_sound : forall fuse ir cs b, tv_check w fuse ir code cs = true -> forall f si',
+  (ir_exec w e false f (snd ir) (ir0 b) = Done si' ->
+     exists g sb', bexec g (bc0 b) = Done sb' /\ bc_io sb' = ir_io si') /\
+  (ir_exec w e false f (snd ir) (ir0 b) = Stopped si' ->
+     exists g sb', bexec g (bc0 b) = Stopped sb' /\ bc_io sb' = ir_io si').
+Proof.
+  intros fuse ir cs b H f si'. unfold tv_check in H. apply andb_prop in H. destruct H as [_ H].
+  destruct (tv_block (S (isize (snd ir))) w fuse code (snd ir) 0 len st0 cs) as [[[pc' st'] cs']|] eqn:TB; [|discriminate].
+  destruct cs'; [|discriminate].
+  pose proof (tv_block_sound _ _ _ _ _ _ _ _ _ _ TB ltac:(lia) f _ (ir0 b) (bc0 b) (rel_init b) eq_refl) as S.
+  split; intros E; rewrite E in S; cbn [SimC] in S.
+  - destruct S as (A' & sb' & (n & RE) & P & (_ & _ & IO & _)).
+    apply orb_prop in H. destruct H as [H|H].
+    + apply Z.eqb_eq in H. exists (n + 1)%nat, sb'. split; [|congruence].
+      apply RE; [|exact I]. cbn [bc_exec]. rewrite P, H, Z.eqb_refl. reflexivity.
+    + apply andb_prop in H. destruct H as [H1 H2]. apply Z.eqb_eq in H1.
+      destruct (code_at code pc') as [[| |sh| | | | | | | |]|] eqn:CA; try discriminate.
+      rewrite <- P in CA. destruct (bexec_at 0 sb' _ CA) as (_ & NL & FE).
+      exists (n + 2)%nat, (next (bc_move sb' sh)). split; [|cbn; congruence].
+      apply RE; [|exact I]. cbn [bc_exec]. rewrite NL, FE. cbn [next bc_set_pc bc_pc bc_move]. rewrite P.
+      replace (pc' + 1 =? len) with true by (symmetry; apply Z.eqb_eq; exact H1). reflexivity.
+  - destruct S as (n & s' & E1 & E2). exists n, s'. split; assumption.
+Qed.
+End Sim.
+
+(** the statement for a bytecode program as the engines run it *)
+Theorem tv_sound : forall w fuse ir (p : bprog) cs e budget, tv_check w fuse ir (bp_code p) cs = true ->
+  forall fuel si',
+  (ir_run w e false budget fuel ir = Done si' ->
+     exists fuel' sb', bc_run w e false budget fuel' p = Done sb' /\ bc_io sb' = ir_io si') /\
+  (ir_run w e false budget fuel ir = Stopped si' ->
+     exists fuel' sb', bc_run w e false budget fuel' p = Stopped sb' /\ bc_io sb' = ir_io si').
+Proof.
+  intros w fuse ir p cs e budget H fuel si'.
+  assert (Hw : 0 <= w) by (unfold tv_check in H; apply andb_prop in H; destruct H as [H _]; apply Z.leb_le; exact H).
+  unfold ir_run, bc_run. cbn [andb].
+  apply (tv_check_sound w Hw e (bp_code p) (fetch_of p) (fetch_instr_at p) fuse ir cs budget H fuel si').
 Qed.
